@@ -54,6 +54,16 @@ int main (int argc, char** argv)
     out ("log_sigma", ln.get_log_sigma ()); out ("beta_back", ln.get_beta ());
     out_int ("deviates", gauss_count);
   });
+  // ... and after the modulation index has been changed with set_beta
+  fn ("lognormal_rebeta", [&] { gauss_reset ();
+    mode* src = new mode; src->set_normal (&gasdev);
+    double beta1 = in ("beta1", 0.3, 2), beta = in ("beta", 0.3, 2);
+    lognormal_mode ln (src, beta1); ln.set_beta (beta);
+    out ("m", ln.modulation ()); out ("mean", ln.get_mod_mean ()); out ("var", ln.get_mod_variance ());
+    out ("log_sigma", ln.get_log_sigma ()); out ("beta_back", ln.get_beta ());
+    out_int ("deviates", gauss_count);
+    if (!symbolic) expect ("log-normal: reported variance after set_beta(beta) is beta^2", ln.get_mod_variance (), beta*beta);
+  });
   // (d) boxcar smoothing: widths 1..5, 13 calls
   for (unsigned w=1; w<=5; w++)
     fn (nm ("boxcar_w", w), [w] {
